@@ -116,6 +116,11 @@ theorem C05_send_total (k : Kcp) (b : Bytes) (h : InvK k) : (send k b).panic = f
 
 theorem C05_inv_recv (k : Kcp) (buflen : Nat) (h : InvK k) : InvK (recv k buflen).k := recv_total h buflen
 
+/-- `Recv`'s running re-slice `buffer = buffer[len(seg.data):]` (a state-dependent slice the model
+does not flag) cannot fail: the merge loop copies exactly `PeekSize()` bytes, already checked
+against `len(buffer)` -/
+theorem C05_recv_fits (k : Kcp) (buflen : Nat) : (recv k buflen).data.length ≤ buflen := recv_fits k buflen
+
 theorem C05_update_total (k : Kcp) (now : U32) (h : InvK k) : (update k now).panic = false ∧ InvK (update k now).k :=
   ⟨(update_total h now).1, (update_total h now).2.1⟩
 
@@ -175,6 +180,21 @@ theorem C05_acklist_bound (k : Kcp) (d : Bytes) (regular ackNoDelay : Bool) (now
     (input k d regular ackNoDelay now).k.acklist.length <
       (k.mtu / u32 IKCP_OVERHEAD).toNat + d.length / IKCP_OVERHEAD := by
   have h1 := C05_acklist_growth k d regular ackNoDelay now h
+  omega
+
+/-- for datagrams a session can deliver (`|d| ≤ mtuLimit`) the bound is a constant: fewer than
+`63 + 62` entries of 8 bytes -/
+theorem C05_acklist_bound_session (k : Kcp) (d : Bytes) (regular ackNoDelay : Bool) (now : U32) (h : InvK k)
+    (h0 : k.acklist.length < (k.mtu / u32 IKCP_OVERHEAD).toNat) (hd : d.length ≤ mtuLimit) :
+    (input k d regular ackNoDelay now).k.acklist.length < 63 + 62 := by
+  have h1 := C05_acklist_bound k d regular ackNoDelay now h h0
+  have h2 := h.mss_le
+  have h3 := h.mss_eq
+  have h4 : (k.mtu / u32 IKCP_OVERHEAD).toNat = k.mtu.toNat / 24 := by
+    unfold u32 IKCP_OVERHEAD
+    rw [BitVec.toNat_udiv]
+    simp only [BitVec.toNat_ofNat, Nat.reducePow, Nat.reduceMod]
+  unfold IKCP_OVERHEAD mtuLimit at *
   omega
 
 /-- only `Input` can lengthen the ack list (by at most `|d|/24`); a flush empties it; every other
